@@ -61,7 +61,7 @@ ASSUMPTIONS = [
     'semantics are those of the generic matcher lean/PyxModel/Regex.lean (the scanners are PROVED equal to it on the '
     'ASTs generated from the rule regexes), which is compared with re.match on random regexes and with PLY on every case',
     'the lexer model cannot be fed lone surrogates (UTF-8 pipe); such inputs are checked on the implementation only',
-    'wall-clock bounds of `re` are validated (budget 1.0 s + 0.5 ms per character), not proved',
+    'time bounds of `re` and PLY are validated (budget 1.0 s + 0.5 ms per character of CPU time of the worker process, smallest of three measurements when the first exceeds it), not proved',
 ]
 TRUSTED_EXTRA = ['translator/gen_oallex.py (rule table, flags of the rule bodies, first-character sets of the COMMENT alternatives)',
                  'translator/regex_ast.py (regex source -> AST through re._parser; compared with re.match on random sources)',
@@ -390,9 +390,10 @@ def search(ctx, broken):
 
 # ------------------------------------------------------------------------------------------ implementation
 
-def _parse(text):
-    """(outcome, tree or None, seconds)"""
-    t0 = time.perf_counter()
+def _parse_once(text):
+    # CPU time of this worker process, not wall-clock time: on a loaded machine a 96-character text was once measured at
+    # 1.2 s of wall-clock time (false alarm met in a background sweep with VERIF_SEED=22 while twenty other jobs ran)
+    t0 = time.process_time()
     try:
         root = _oal.parse(text)
         out = 'tree' if isinstance(root, _oal.Node) else 'not-a-tree:%s' % type(root).__name__
@@ -400,7 +401,18 @@ def _parse(text):
         root, out = None, 'ParseException'
     except Exception as e:       # anything else is a finding, reported with the input
         root, out = None, 'exception:%s' % type(e).__name__
-    return out, root, time.perf_counter() - t0
+    return out, root, time.process_time() - t0
+
+
+def _parse(text):
+    """(outcome, tree or None, seconds of CPU time).  A measurement above the budget is repeated twice and the smallest
+    value counts: super-linear behaviour of the lexer or parser is deterministic and stays above the budget, a slow first
+    call (table construction, a descheduled worker) does not."""
+    out, root, secs = _parse_once(text)
+    if secs > budget_s(len(text)):
+        for _ in range(2):
+            secs = min(secs, _parse_once(text)[2])
+    return out, root, secs
 
 
 def _ply_productions():
@@ -534,7 +546,7 @@ def run_impl(case):
                       % (short, out)})
     if secs > lim:
         fails.append({'sig': 'time:' + (case.get('family') or case.get('stream') or case['kind']),
-                      'what': 'oal.parse took %.2f s on %d characters (budget %.2f s): %r' % (secs, len(text), lim, short)})
+                      'what': 'oal.parse took %.2f s of CPU time on %d characters, smallest of three measurements (budget %.2f s): %r' % (secs, len(text), lim, short)})
     stats['outcome_' + out.split(':')[0]] = 1
     nontrivial = False
     if case['kind'] == 'pos':
